@@ -57,6 +57,11 @@ def opBuf (s : L) (k : Char) (n : Nat) : Int × L :=
   | 'i', none =>
     let (ok, s1) := attempt s
     if ok then (0, { s1 with live := s1.live + 1, buf := some (Buf.init n) }) else (ENOMEM, s1)
+  | 'o', some _ => (-2, s)
+  | 'o', none =>
+    -- `sb_buffer_init_from_bytes`: the buffer adopts the caller's block (one more live block); size 0 is refused
+    if n = 0 then (codeOf .einval, s)
+    else (0, { s with live := s.live + 1, buf := some { bytes := List.replicate n 0, capacity := n, owned := true } })
   | 'v', some _ => (-2, s)
   | 'v', none => (0, { s with buf := some (Buf.view (List.replicate n 0)) })
   | _, none => (-1, s)
